@@ -69,7 +69,7 @@ def primary(case, result, terms):
         x = ins['x']
         emit('sin', jets.compose(levels, [x], jets.func_deriv('sin', [x[0]])))
         emit('cos', jets.compose(levels, [x], jets.func_deriv('cos', [x[0]])))
-    elif k0 == 'bin':
+    elif k0 in ('bin', 'assign'):
         op = parts[1]
         a, b = ins['a'], ins['b']
         if op == 'div':
